@@ -152,3 +152,10 @@ Example C08_ex_header :
   | _ => False
   end.
 Proof. repeat split; vm_compute; reflexivity. Qed.
+
+Example C08_ex_hypotheses : marker_ok $"###" /\ title_ok $"A title, level 3".
+Proof.
+  split.
+  - split; [discriminate|]. split; [intros x Hx; vm_compute in Hx; intuition|vm_compute; repeat constructor].
+  - split; [intros x Hx; vm_compute in Hx; vm_compute; intuition|]. eexists _, _. split; [reflexivity|]. split; reflexivity.
+Qed.
